@@ -150,3 +150,121 @@ class Lookup(Harness):
 
 def harnesses(tier):
     return [Lookup(tier)]
+
+
+# --------------------------------------------------------------------------------------------------------------
+class CanonicalizePreservesValue(Harness):
+    """lookup(canonicalize(n)) = lookup(n) on a symbolic database with long/short prefix pairs and names that
+    split in two ways (d+at vs da+t)."""
+    name = 'context.canonicalize.value_preserved'
+    props = ('C07', 'C04')
+    entry_name = 'Context::canonicalize ; Context::lookup ; Context::lookup'
+    loop_bound = 16
+    _concrete = None
+    PREFIXES = [('deci', 'x'), ('d', 'x'), ('deca', 'y'), ('da', 'y')]
+    STEMS = ['at', 't', 'a', 'ts']
+    QUERIES = ['dat', 'dt', 'da', 'dats', 'dts', 'decit', 'decaat', 'at', 'ats', 'daa', 'dda']
+
+    def __init__(self):
+        self.describe = ('canonicalize then lookup vs lookup for %d names over stems %s (each present or not) and prefixes %s with '
+                         'equal values for the long/short pairs') % (len(self.QUERIES), self.STEMS, [p for p, _ in self.PREFIXES])
+        self.assumptions = ['database well-formedness: every unit has a definition (non-alias here), long and short spellings of a prefix '
+                            'carry the same value, no base-unit long names / aliases in this universe']
+        self.bounds = ['universe: stems %s, prefix list %s in this order' % (self.STEMS, self.PREFIXES)]
+        self.expect_classes = ['canonical', 'no-canonical-name']
+
+    def build(self, ex, I):
+        fields = ex.prog.src.structs['Registry']
+        units, defs = MapV(), MapV()
+        info = {}
+        for n in self.STEMS:
+            p = I.bool('unit_%s' % n)
+            v = I.real('val_%s' % n)
+            ex.assume(v != 0)
+            units.ent[n] = [n, p, number(rational(v), dim({'u_' + n: (True, 1)}))]
+            defs.ent[n] = [n, p, expr_const(ex, rational(Fraction(1)))]
+            info[n] = (p, v)
+        pv = {'x': I.real('prefix_x'), 'y': I.real('prefix_y')}
+        ex.assume(z3.And(pv['x'] != 0, pv['y'] != 0, pv['x'] != pv['y']))
+        plist = Arr([Tup([p, rational(pv[k])]) for p, k in self.PREFIXES])
+        vals = {f: MapV() for f in fields}
+        vals['units'] = units
+        vals['definitions'] = defs
+        vals['prefixes'] = plist
+        vals['datepatterns'] = Arr([])
+        reg = Struct('Registry', [vals[f] for f in fields])
+        cf = ex.prog.src.structs['Context']
+        cv = {'registry': reg, 'temporaries': MapV(), 'now': Opaque('now'), 'use_humanize': True, 'save_previous_result': False,
+              'previous_result': none(ex)}
+        ctxv = Struct('Context', [cv.get(f, Opaque(f)) for f in cf])
+        q = self.QUERIES[ex.choose(len(self.QUERIES), 'name')]
+        return [ctxv, q], {'q': q}
+
+    def entry(self, ex, args, ctx):
+        ctxv, q = args
+        c = ex.call(None, 'loader::context::Context::canonicalize', [ref(ctxv), q])
+        cv = deref_all(c)
+        l1 = ex.call(None, 'loader::context::Context::lookup', [ref(ctxv), q])
+        if cv.variant == 0:
+            return Tup([c, l1, none(ex)])
+        cn = deref_all(cv.fields[0])
+        ctx['canon'] = cn
+        l2 = ex.call(None, 'loader::context::Context::lookup', [ref(ctxv), cn])
+        return Tup([c, l1, l2])
+
+    def classify(self, outcome):
+        if outcome[0] == 'panic':
+            return 'panic'
+        return 'canonical' if deref_all(deref_all(outcome[1]).fields[0]).variant == 1 else 'no-canonical-name'
+
+    def post(self, ex, ctx, outcome):
+        t = deref_all(outcome[1])
+        c, l1, l2 = (deref_all(x) for x in t.fields)
+        if c.variant == 0:
+            return []
+        cn = ctx.get('canon')
+        if not isinstance(cn, str):
+            return [('canonical name is a concrete string', False)]
+        obs = [('canonical name `%s` of `%s` resolves whenever the name does' % (cn, ctx['q']), l1.variant == l2.variant)]
+        if l1.variant == 1 and l2.variant == 1:
+            v1, d1 = number_parts(l1.fields[0])
+            v2, d2 = number_parts(l2.fields[0])
+            obs.append(('`%s` and its canonical name `%s` denote the same value' % (ctx['q'], cn),
+                        zreal(numeric_parts(v1)[1]) == zreal(numeric_parts(v2)[1])))
+            obs.append(('... and the same unit', sorted(d1) == sorted(d2)))
+        return obs
+
+    def case(self, ctx, vals, label):
+        c = Harness.case(self, ctx, vals, label)
+        c['inputs']['q'] = ctx['q']
+        return c
+
+    NAMES = ['dat', 'dau', 'daA', 'dasb', 'daustbl', 'yoctodecillion', 'mm', 'km', 'dam', 'das', 'kg', 'ft', 'micron', 'feet', 'kft', 'mins', 'ks']
+
+    def native(self, inputs, label):
+        # the same question on the bundled database, for the names that split in two ways there (d/da, y/yocto) and ordinary ones
+        return [{'mode': 'canon_roundtrip', 'name': n} for n in self.NAMES]
+
+    def judge(self, inputs, label, obs):
+        bad = []
+        for n, o in zip(self.NAMES, obs):
+            if o.get('outcome') == 'panic':
+                bad.append('%s: panic %s' % (n, o.get('panic')))
+            elif o.get('canonicalize') is not None and o.get('lookup') != o.get('lookup_canon'):
+                bad.append('%s -> %s: %s vs %s' % (n, o.get('canonicalize'), o.get('lookup'), o.get('lookup_canon')))
+        return (bool(bad), '; '.join(bad) or 'bundled database: canonical names keep their values')
+
+
+def json_names(obs):
+    return {o.get('id'): o.get('canonicalize') for o in obs}
+
+
+class CanonicalizeOnDatabase(Harness):
+    pass
+
+
+_lookup_harnesses = harnesses
+
+
+def harnesses(tier):   # noqa: F811
+    return _lookup_harnesses(tier) + [CanonicalizePreservesValue()]
